@@ -23,11 +23,11 @@ Record proc_env := mkProcEnv {
 }.
 
 (* the dispatch of examples/*: switch frame.PayloadID *)
-Definition process_by_id (e : proc_env) (fuel : nat) (f : frame) (p : slice) : res unit :=
+Definition process_by_id (e : proc_env) (fuel : nat) (ip6 : option slice) (f : frame) (p : slice) : res unit :=
   let id := f_id f in
   if id =? PayloadARP then arp_process (pe_arp e) (pe_router e) (pe_lan e) p
   else if id =? PayloadICMP4 then icmp4_process (pe_info4 e) p
-  else if id =? PayloadICMP6 then icmp6_process (pe_lbl e) fuel (pe_icmp6 e) p
+  else if id =? PayloadICMP6 then icmp6_process (pe_lbl e) fuel (pe_icmp6 e) ip6 p   (* pkt.IP6(): nil for ICMPv6 in IPv4 *)
   else if id =? PayloadDHCP4 then
     dhcp4_process fuel (mkDhcpEnv (a_port (f_dst f) =? 68) (pe_dhcp_reply e) (pe_dhcp_info e)) p
   else if id =? PayloadDNS then bind (fst (processDNS (pe_dns_table e) p)) (fun _ => Ok tt)
@@ -41,11 +41,12 @@ Definition process_by_id (e : proc_env) (fuel : nat) (f : frame) (p : slice) : r
   else Ok tt.                                  (* no processor for the other classes *)
 
 Definition receive (e : proc_env) (fuel : nat) (c : cfg) (s : slice) : res unit :=
-  (f <- parse c s ;; p <- payload_view s f ;; process_by_id e fuel f p)%res.
+  (f <- parse c s ;; p <- payload_view s f ;; ip6 <- frame_ip6 s f ;; process_by_id e fuel ip6 f p)%res.
 
-Lemma process_by_id_total e f p : wf p -> forall fuel, (len p < fuel)%nat -> safe (process_by_id e fuel f p).
+Lemma process_by_id_total e f ip6 p : wf p -> wf (ip6_view ip6) ->
+  forall fuel, (len p < fuel)%nat -> safe (process_by_id e fuel ip6 f p).
 Proof.
-  intros Hw fuel Hf. unfold process_by_id.
+  intros Hw Hw6 fuel Hf. unfold process_by_id.
   destruct (f_id f =? PayloadARP); [apply arp_process_total; exact Hw|].
   destruct (f_id f =? PayloadICMP4); [apply icmp4_process_total; exact Hw|].
   destruct (f_id f =? PayloadICMP6); [apply icmp6_process_total; assumption|].
@@ -76,13 +77,16 @@ Proof.
   intros Hw fuel Hf. unfold receive.
   apply safe_bind; [apply parse_no_panic; exact Hw|]. intros f Hp.
   destruct (payload_view_wf c s f Hw Hp) as (p & -> & Hwp & Hl). cbn [bind].
-  apply process_by_id_total; [exact Hwp|lia].
+  destruct (frame_accessors_safe c s f Hw Hp) as (_ & _ & H6 & _).
+  destruct H6 as [E|(off & Ho & E)]; rewrite E; cbn [bind].
+  - apply process_by_id_total; [exact Hwp|unfold wf, cap; cbn; lia|lia].
+  - apply process_by_id_total; [exact Hwp|cbn [ip6_view]; slen|lia].
 Qed.
 
 (* non-vacuity: an ARP request frame is parsed, classified PayloadARP and processed *)
 Definition ex_env : proc_env :=
   mkProcEnv (mkArpEnv false true true true) [192; 168; 0; 11] (fun _ => true) true
-            (mkIcmp6Env true false true true) RNak true (fun _ => true) [] 
+            (mkIcmp6Env true true true) RNak true (fun _ => true) [] 
             (fun _ => mkMsg true true true 0 0 0 []) (fun _ => mkSsdp 0 false 0 false [] false false).
 
 Example dispatch_nonvacuous :
@@ -93,3 +97,13 @@ Proof.
   split; [unfold wf, cap; cbn; lia|]. split; [eexists; split; vm_compute; reflexivity|].
   vm_compute. reflexivity.
 Qed.
+
+(* the frame ALIAS found: Ethernet / IPv4 with protocol 58 is classified PayloadICMP6 without an
+   IPv6 header; the dispatcher hands it to the ICMPv6 processor, which (d9f9e28) returns an error *)
+Definition ex_icmp6_in_ip4 : bytes :=
+  [2;0;0;0;0;1; 0;102;102;102;102;102; 8;0; 69;0;0;36; 0;0;0;0; 64;58; 0;0; 192;168;0;50; 192;168;0;129;
+   135;0;0;0; 0;0;0;0; 254;128;0;0;0;0;0;0].
+Example dispatch_icmp6_in_ip4 :
+  (exists f, parse cfg0 (of_bytes ex_icmp6_in_ip4) = Ok f /\ f_id f = PayloadICMP6 /\ f_off6 f = 0%nat) /\
+  receive ex_env 100 cfg0 (of_bytes ex_icmp6_in_ip4) = Err EFrameLen.
+Proof. split; [eexists; repeat split; vm_compute; reflexivity|vm_compute; reflexivity]. Qed.
